@@ -13,11 +13,13 @@ import gen as G
 THEOREMS = ['carry_never_reads_out_of_bounds', 'at_axis_operations_never_read_out_of_bounds',
             'valid_layouts_can_always_be_read']
 NEEDS_SAN = True
+DRIVERS = ('awkdrv', 'pydrv')
 RULE = ('union of the generators of C01 C03 C05 C06 C07 C09 C10 (valid layouts x operations x arguments) plus an invalid '
         'stream (one documented rule broken at one node) through validityerror/tostring/type/form/tojson; every case '
         'with input-buffer dumps before/after and a re-read of the result after the inputs are released; '
         'non-trivial = the case has >= 2 layout nodes; distinct by case text')
-ASSUMPTIONS = ['memory safety of the index arithmetic is proved for the modelled pipelines only (carry, at-axis operations, '
+ASSUMPTIONS = ['Python layer: a sample of the Python-half cases of C03 C05 C07 C08 C09 C10 runs through the real /repo Python code under pyshim with every array operand dumped (all buffers) before and after the call; crash of the driver process or a changed operand is a violation; pyshim passes arrays to C++ by value, so aliasing between Python-held buffers and C++ results is not observable there',
+               'memory safety of the index arithmetic is proved for the modelled pipelines only (carry, at-axis operations, '
                'kernels in C13, repartition in C18, the Forth step function in C19, builder buffers in C14); shared_ptr '
                'lifetimes, allocator behaviour and the pybind11 boundary are covered only by the sanitizer runs',
                'quick tier runs the normal build (crash / hang / purity detection); AddressSanitizer + UBSan run in the thorough tier']
@@ -72,6 +74,8 @@ def signature(c, impl, v):
 def run(cases, tier, rng):
     import check
     mod = sys.modules[__name__]
+    replayed_py = [c for c in cases if c.id.startswith('py')]      # only when replaying a Python-layer case
+    cases = [c for c in cases if not c.id.startswith('py')]
     s = check.default_run(mod, cases, tier)     # thorough: SAN build (NEEDS_SAN)
     # only crash-type outcomes decide C12; value disagreements belong to the owning property
     keep = []
@@ -83,4 +87,36 @@ def run(cases, tier, rng):
     s['corr_obligations'] = {'impl:no-crash-no-hang-pure': ncrash == 0 or all(
         check.match_known(check.KNOWN, 'C12', dict(signature=f.get('signature'))) for f in keep)}
     s.setdefault('extra', {})['sanitizers'] = (tier == 'thorough')
+    # ---- the Python layer of /repo (operations/*.py, _util.py) under pyshim: crash / purity of every operand
+    import pyhalves as P
+    P.build()
+    per = 400 if tier == 'quick' else 3000
+    pcs = list(replayed_py)
+    for prop in (P.PROPS if not replayed_py and cases else ()):
+        cs = P.CASES[prop](rng, 'quick' if tier == 'quick' else 'thorough')
+        rng.shuffle(cs)
+        # the rarely taken index-rewriting branches first (unions of options), then a sample of everything else
+        cs.sort(key=lambda c: 0 if (c.meta.get('tags') or {}).get('union_of_options') else 1)
+        for c in cs[:per]:
+            c.id = 'py' + prop + '_' + c.id
+            pcs.append(c)
+    res = P.run_py([c.line() for c in pcs])
+    pv = {}
+    for c in pcs:
+        r = res.get(c.id, 'crash missing')
+        k = r.split(' ', 1)[0]
+        pv[k] = pv.get(k, 0) + 1
+        if k in ('impure', 'crash'):
+            sig = 'python-layer-' + k + ':' + c.op
+            f = dict(kind='crash' if k == 'crash' else 'viol', signature=sig, size=len(c.line()),
+                     what='%s (Python layer of /repo under pyshim): %s' % (c.op, P.unhex(r)[:700]),
+                     case_lines=[c.line(), '# python layer: ' + P.unhex(r)[:1500],
+                                 '# replay: /venv/bin/python /verif/harness/py_halves.py < this file'])
+            s['findings'].append(f)
+            if not check.match_known(check.KNOWN, 'C12', dict(signature=sig)):
+                s['corr_obligations']['impl:no-crash-no-hang-pure'] = False
+    s['evaluations'] = s.get('evaluations', 0) + len(pcs)
+    s['extra']['python_layer_outcomes'] = pv
+    s['corr_obligations']['impl:python-layer-pure'] = not any(
+        f['signature'] and str(f['signature']).startswith('python-layer-impure') for f in s['findings'])
     return s
